@@ -8,17 +8,21 @@ def parseProto (s : String) : Except String Proto :=
   match s with
   | "safe" => .ok .safe
   | "current" => .ok .current
+  | "pathlock" => .ok .pathlock
+  | "buffered" => .ok .buffered
+  | "unanchored" => .ok .unanchored
   | _ => .error s!"unknown proto {s}"
 
-def parseProc (j : Json) : Except String (Kind × Nat) := do
+def parseProc (j : Json) : Except String (Kind × Nat × Nat) := do
   let k ← getString j "kind"
   let a ← getNat j "arg"
   let now ← getNat j "now"
+  let al := match getNat j "alias" with | .ok a => a | .error _ => 0
   match k with
-  | "populate" => pure (.populate, now)
-  | "load" => pure (.load a, now)
-  | "refresh" => pure (.refresh a, now)
-  | "peek" => pure (.peek a, now)
+  | "populate" => pure (.populate, now, al)
+  | "load" => pure (.load a, now, al)
+  | "refresh" => pure (.refresh a, now, al)
+  | "peek" => pure (.peek a, now, al)
   | _ => throw s!"unknown process kind {k}"
 
 def parseAction (j : Json) : Except String Action := do
@@ -49,7 +53,7 @@ def gotJson : Option (Option Content) → Json
 def pcName : Pc → String
   | .list1 => "list1" | .readTs => "readTs" | .openLock => "openLock" | .tryLock _ => "tryLock"
   | .pick _ => "pick" | .mktemp _ => "mktemp" | .create _ => "create" | .append _ _ => "append"
-  | .rename _ => "rename" | .truncTs => "truncTs" | .writeTs => "writeTs" | .unlock => "unlock" | .list2 => "list2" | .read => "read"
+  | .close _ => "close" | .rename _ => "rename" | .truncTs => "truncTs" | .writeTs => "writeTs" | .unlock => "unlock" | .list2 => "list2" | .read => "read"
 
 def procJson (pr : Proc) : Json :=
   jobj [("status", Json.str (statusName pr.status)), ("err", errJson pr.err), ("saw", jbool pr.saw),
@@ -68,7 +72,7 @@ def handle (op : String) (j : Json) : Option (Except String Json) :=
       let sched ← (← getArr j "sched").mapM parseAction
       let n := ps.length
       let (tr, ov, s) := run c proto n sched (init ps)
-      let nf := ps.foldl (fun m (k, _) => match k with | .refresh r => max m r | _ => m) c.nFiles
+      let nf := ps.foldl (fun m (k, _, _) => match k with | .refresh r => max m r | _ => m) c.nFiles
       let finals := (List.range nf).filterMap fun f =>
         (s.files (.final f)).map fun ct => jarr [jnat f, contentJson ct, jbool (ct == full c f)]
       let tmps := (List.range n).flatMap fun p => (List.range nf).filterMap fun f =>
@@ -80,6 +84,9 @@ def handle (op : String) (j : Json) : Option (Except String Json) :=
         ("lockFile", jbool s.lockFile), ("holder", jopt jnat s.holder), ("ts", jopt jnat s.ts), ("tsTorn", jbool s.tsTorn),
         ("dirty", jbool s.dirty),
         ("procs", jarr ((List.range n).map fun p => procJson (s.procs p)))]
+  | "c19.isurl" => some do
+      let t ← getStr j "text"
+      pure <| jobj [("url", jbool (checkIfUrl t))]
   | _ => none
 
 end HedVerif.Driver.C19
